@@ -368,8 +368,16 @@ class AsyncConnectionPool(AsyncRequestInterface):
     async def _close_connections(self, closing: list[AsyncConnectionInterface]) -> None:
         # Close connections which have been removed from the pool.
         with AsyncShieldCancellation():
+            interrupted: BaseException | None = None
             for connection in closing:
-                await connection.aclose()
+                try:
+                    await connection.aclose()
+                except BaseException as exc:
+                    # The connections are no longer in the pool, so nothing
+                    # else is going to close them. Carry on with the others.
+                    interrupted = interrupted or exc
+            if interrupted is not None:
+                raise interrupted
 
     async def aclose(self) -> None:
         # Explicitly close the connection pool.
